@@ -10,9 +10,19 @@ Streams
                oracle (model independent): load(dir) == original; every order == sequential; result is a live view.
                model: directory listing + parsed meta.json + file cells == Model.encode; task list == Model.tasks;
                       final (mapping, directory) under the permutation == Model.run_tasks; load == Model.decode(dir).
+  (1b) fault   fault injection: small structures (most with a tensorclass entry — decorator / subclass form, nested, over a lazy
+               stack, Optional and non-tensor fields); at EVERY leaf position and EVERY metadata file in turn one obstacle (entry
+               already memory-mapped elsewhere with copy_existing=False; <key>.memmap present with existsok=False; meta.json is a
+               directory [stands for a read-only directory: the check runs as root]) x {memmap_, memmap, memmap_like, save} x
+               num_threads {0,1,2,4} x completion orders x return_early x the real pool.
+               oracle: single-threaded form = threaded form (both raise the same exception class, or both succeed with equal
+               directory / result / loaded tensordict); never "returns normally with a file missing".
+               model: per-task outcome, outcome of the sequential and of the pool call, and COLLECTED = SPAWNED: every future
+               the executor handed out vs the list the entry point finally waits for / inspects / gives to the TensorDictFuture
+               == Model.C10_Fault.submitted (the correspondence obligation of C10_walk_collects_every_future).
   (2) resave   a second structure saved over a directory that already holds a first one (stale files).
   (3) grow     make_memmap / make_memmap_from_tensor / make_memmap_from_storage on a saved tensordict (metadata
-               read-modify-write), memmap_refresh_ / load_memmap_ of a second mapping.
+               read-modify-write), memmap_refresh_ / load_memmap_ of a second mapping (== Model.C10_Refresh.load_into).
   (4) live     in-place write through one mapping read through another mapping of the same directory: same process,
                forked child, spawned child (tensordict pickled by filename); child writes seen by the parent.
 What is runtime (mmap coherence between processes, real preemption) is exercised here and NOT modelled."""
@@ -50,7 +60,9 @@ def _install_helper():
 _install_helper()
 
 import torch  # noqa: E402
-from tensordict import (LazyStackedTensorDict, MemoryMappedTensor, NonTensorData, NonTensorStack, TensorDict,  # noqa: E402
+from typing import Optional  # noqa: E402
+
+from tensordict import (LazyStackedTensorDict, MemoryMappedTensor, NonTensorData, NonTensorStack, TensorClass, TensorDict,  # noqa: E402
                         lazy_stack, tensorclass)
 import tensordict.base as _tdbase  # noqa: E402
 
@@ -73,7 +85,23 @@ class TCB:
     nest: TensorDict
 
 
-TCS = {"TCA": TCA, "TCB": TCB}
+class TCC(TensorClass):
+    """subclass form; an Optional tensor field (None lives in _non_tensordict and goes to the class's own meta.json) and a
+    non-tensor field with a default"""
+    x: torch.Tensor
+    y: Optional[torch.Tensor] = None
+    tag: str = "dflt"
+
+
+@tensorclass
+class TCD:
+    """a tensorclass nested in a tensorclass, next to an Optional field"""
+    x: torch.Tensor
+    inner_tc: TCA
+    y: Optional[torch.Tensor] = None
+
+
+TCS = {"TCA": TCA, "TCB": TCB, "TCC": TCC, "TCD": TCD}
 
 
 class Opaque:
@@ -253,7 +281,8 @@ def build(d, ctx):
         return lazy_stack([build(m, ctx) for m in d["members"]], d["sd"])
     if k == "tc":
         inner = build(d["inner"], ctx)
-        return TCS[d["cls"]]._from_tensordict(inner)
+        nt = {f: build_payload(p) for f, p in d.get("nt", [])}
+        return TCS[d["cls"]]._from_tensordict(inner, nt) if nt else TCS[d["cls"]]._from_tensordict(inner)
     if k == "ntd":
         return NonTensorData(build_payload(d["data"]), batch_size=d["bs"])
     if k == "nts":
@@ -291,7 +320,8 @@ def observe(x, values=True):
     if k == "lazy":
         return {"k": "lazy", "sd": x.stack_dim, "bs": list(x.batch_size), "members": [observe(m, values) for m in x.tensordicts]}
     if k == "tc":
-        return {"k": "tc", "cls": type(x).__name__, "inner": observe(x._tensordict, values)}
+        return {"k": "tc", "cls": type(x).__name__, "inner": observe(x._tensordict, values),
+                "nt": {f: obs_payload(v) for f, v in sorted(x._non_tensordict.items())}}
     if k == "ntd":
         return {"k": "ntd", "bs": list(x.batch_size), "data": obs_payload(x.data)}
     if k == "nts":
@@ -326,7 +356,8 @@ def expected(d, values=True):
     if k == "lazy":
         return {"k": "lazy", "sd": d["sd"], "bs": lazy_bs(d), "members": [expected(m, values) for m in d["members"]]}
     if k == "tc":
-        return {"k": "tc", "cls": d["cls"], "inner": expected(d["inner"], values)}
+        return {"k": "tc", "cls": d["cls"], "inner": expected(d["inner"], values),
+                "nt": {f: canon_payload(p) for f, p in sorted(d.get("nt", []))}}
     if k == "ntd":
         return {"k": "ntd", "bs": list(d["bs"]), "data": canon_payload(d["data"])}
     if k == "nts":
@@ -369,6 +400,8 @@ def obs_diff(a, b, path=""):
     if k == "tc":
         if a["cls"] != b["cls"]:
             return (path, "container-type", a["cls"], b["cls"])
+        if a.get("nt", {}) != b.get("nt", {}):
+            return (path, "non-tensor-fields", a.get("nt", {}), b.get("nt", {}))
         return obs_diff(a["inner"], b["inner"], path + "/_tensordict")
     if k in ("ntd", "nts"):
         if a["data"] != b["data"]:
@@ -398,7 +431,7 @@ TYPE_NAMES = {}
 
 def _type_names():
     if not TYPE_NAMES:
-        for c in (TensorDict, LazyStackedTensorDict, NonTensorData, NonTensorStack, TCA, TCB):
+        for c in (TensorDict, LazyStackedTensorDict, NonTensorData, NonTensorStack) + tuple(TCS.values()):
             TYPE_NAMES[str(c)] = c.__name__
     return TYPE_NAMES
 
@@ -517,7 +550,23 @@ def dir_diff(a, b, path=""):
 
 # ====================================================================================================== permuting executor
 class PermFuture(concurrent.futures.Future):
-    pass
+    """a future of the permuting executor; records who looks at its outcome (the futures a public entry point INSPECTS are
+    the futures it collected: `for f in futures: f.result()`)"""
+
+    def _looked_at(self):
+        ex = getattr(self, "_perm_exec", None)
+        if ex is not None:
+            ex.inspected.append(self._perm_idx)
+            if not self.done():
+                ex.run_until([self])
+
+    def result(self, timeout=None):
+        self._looked_at()
+        return super().result(timeout)
+
+    def exception(self, timeout=None):
+        self._looked_at()
+        return super().exception(timeout)
 
 
 class PermExecutor:
@@ -526,11 +575,14 @@ class PermExecutor:
     down or when somebody waits for one of its futures.  Worker exceptions are recorded (and set on the future)."""
     order = None
     log = None  # list of dicts, one per executor instance of the current call
+    wait_log = None  # the lists of futures given to concurrent.futures.wait during the current call, in call order
 
     def __init__(self, max_workers=None, *a, **k):
         self.tasks = []
         self.errors = []
         self.ran = []
+        self.inspected = []   # submission indices whose future had .result() / .exception() called
+        self.waited = set()   # submission indices handed to concurrent.futures.wait
         self.max_workers = max_workers
         if PermExecutor.log is not None:
             PermExecutor.log.append(self)
@@ -538,6 +590,7 @@ class PermExecutor:
     def submit(self, fn, *args, **kwargs):
         f = PermFuture()
         f._perm_exec = self
+        f._perm_idx = len(self.tasks)
         self.tasks.append([len(self.tasks), fn, args, kwargs, f, False])
         return f
 
@@ -579,6 +632,11 @@ _real_wait = concurrent.futures.wait
 
 def _perm_wait(fs, timeout=None, return_when=concurrent.futures.ALL_COMPLETED):
     fs = list(fs)
+    if PermExecutor.wait_log is not None:
+        PermExecutor.wait_log.append([f for f in fs if getattr(f, "_perm_exec", None) is not None])
+    for f in fs:
+        if getattr(f, "_perm_exec", None) is not None:
+            f._perm_exec.waited.add(f._perm_idx)
     for ex in {getattr(f, "_perm_exec", None) for f in fs} - {None}:
         ex.run_until(fs)
     return _real_wait(fs, timeout=timeout, return_when=return_when)
@@ -603,6 +661,7 @@ def perm_pool(order):
     concurrent.futures.wait = _perm_wait
     PermExecutor.order = list(order) if order is not None else None
     PermExecutor.log = []
+    PermExecutor.wait_log = []
     try:
         yield PermExecutor.log
     finally:
@@ -610,6 +669,7 @@ def perm_pool(order):
             setattr(mod, name, v)
         PermExecutor.order = None
         PermExecutor.log = None
+        PermExecutor.wait_log = None
 
 
 def task_label(t, root):
@@ -641,7 +701,8 @@ def task_label(t, root):
 def exc_class(e):
     n = type(e).__name__
     return n if n in ("RuntimeError", "TypeError", "KeyError", "ValueError", "FileNotFoundError", "FileExistsError",
-                      "AttributeError", "IndexError", "NotImplementedError") else "other:" + n
+                      "AttributeError", "IndexError", "NotImplementedError", "IsADirectoryError", "NotADirectoryError",
+                      "PermissionError") else "other:" + n
 
 
 def mapping_obs(res, root):
@@ -667,8 +728,9 @@ def mapping_obs(res, root):
 
 
 def save_call(desc, api, root, num_threads=0, order=None, real_pool=False, copy_existing=False, existsok=True, side=None,
-              subject=None):
-    """build the structure (unless given), call the API on it with the (permuting | real) pool; returns the observation"""
+              subject=None, return_early=False):
+    """build the structure (unless given), call the API on it with the (permuting | real) pool; returns the observation.
+    return_early: the call returns a TensorDictFuture; its .result() is the outcome of the call"""
     ctx = {"side": side}
     o = {"api": api, "num_threads": num_threads}
     try:
@@ -678,11 +740,17 @@ def save_call(desc, api, root, num_threads=0, order=None, real_pool=False, copy_
     kw = {"num_threads": num_threads, "copy_existing": copy_existing}
     if api != "save":
         kw["existsok"] = existsok
+    if return_early:
+        kw["return_early"] = True
     f = getattr(td, api)
     cm = contextlib.nullcontext([]) if real_pool else perm_pool(order)
     with cm as log:
+        handed = None
         try:
             res = f(root, **kw)
+            if return_early and hasattr(res, "futures") and hasattr(res, "result"):
+                handed = list(res.futures)
+                res = res.result()
             o["outcome"] = "ok"
         except EXC as e:  # noqa: BLE001
             res = None
@@ -693,6 +761,20 @@ def save_call(desc, api, root, num_threads=0, order=None, real_pool=False, copy_
         o["ran"] = [i for ex in log for i in ex.ran]
         o["worker_errors"] = [list(x) for ex in log for x in ex.errors]
         o["unrun"] = sum(1 for ex in log for t in ex.tasks if not t[5])
+        if log:
+            # the futures the entry point COLLECTED: the list it finally waits for (`concurrent.futures.wait(futures)` is its
+            # last wait; the tensorclass helper waits for its own list earlier) resp. hands to the TensorDictFuture; and the
+            # ones it INSPECTS (.result()): the collected ones in order, up to the first that failed
+            offs, off, spawned = {}, 0, []
+            for ex in log:
+                offs[id(ex)] = off
+                spawned += [off + t[0] for t in ex.tasks]
+                off += len(ex.tasks)
+            last = handed if handed is not None else (PermExecutor.wait_log[-1] if PermExecutor.wait_log else [])
+            o["spawned"] = spawned
+            o["collected"] = [offs[id(fu._perm_exec)] + fu._perm_idx for fu in last if id(getattr(fu, "_perm_exec", None)) in offs]
+            o["inspected"] = [offs[id(ex)] + i for ex in log for i in ex.inspected]
+            o["waited"] = sorted({offs[id(ex)] + i for ex in log for i in ex.waited})
     return o, td, res
 
 
@@ -768,6 +850,21 @@ def gen_lazy(rng, bs, depth, cfg):
     return {"k": "lazy", "sd": sd, "members": members}
 
 
+def restrict(d, n):
+    """the descriptor of d[0] along the first n batch dims (leaves / NonTensorData of a plain tensordict)"""
+    d = json.loads(json.dumps(d))
+    if d["k"] == "leaf":
+        d["shape"] = d["shape"][n:]
+        if d.get("layout") == "expanded":
+            d["layout"] = "contig"
+    elif d["k"] in ("ntd", "td"):
+        d["bs"] = d["bs"][n:]
+        d["ents"] = [[k, restrict(e, n)] for k, e in d.get("ents", [])] if d["k"] == "td" else None
+        if d["ents"] is None:
+            del d["ents"]
+    return d
+
+
 def reseed(rng, d):
     d = json.loads(json.dumps(d))
 
@@ -784,14 +881,43 @@ def reseed(rng, d):
     return d
 
 
-def gen_tc(rng, bs, depth, cfg):
-    cls = rng.choice(["TCA", "TCB"])
+def gen_tc(rng, bs, depth, cfg, cls=None):
+    """a tensorclass instance (decorator form TCA/TCB/TCD, subclass form TCC): tensor fields, non-tensor fields (NonTensorData in
+    the inner tensordict), a nested TensorDict (TCB), a nested tensorclass (TCD), Optional fields left None (-> _non_tensordict)"""
+    cls = cls or rng.choice(["TCA", "TCB", "TCC", "TCD"])
     x = gen_leaf(rng, bs, allow_mm=False)
+    nt = []
+
+    def tag():
+        return {"k": "ntd", "bs": list(bs), "data": rng.choice(PAYLOADS[:9])}
+
+    def optional(ents):
+        if rng.random() < 0.5:
+            ents.append(["y", gen_leaf(rng, bs, allow_mm=False)])
+        else:
+            nt.append(["y", ["n"]])
     if cls == "TCA":
-        inner = {"k": "td", "bs": list(bs), "ents": [["x", x], ["tag", {"k": "ntd", "bs": list(bs), "data": rng.choice(PAYLOADS[:9])}]]}
+        ents = [["x", x], ["tag", tag()]]
+    elif cls == "TCB":
+        ents = [["x", x], ["nest", gen_td(rng, bs, depth + 1, cfg)]]
+    elif cls == "TCC":
+        ents = [["x", x]]
+        optional(ents)
+        ents.append(["tag", tag()])
+        if rng.random() < 0.3:
+            ents.reverse()
     else:
-        inner = {"k": "td", "bs": list(bs), "ents": [["x", x], ["nest", gen_td(rng, bs, depth + 1, cfg)]]}
-    return {"k": "tc", "cls": cls, "inner": inner}
+        ents = [["x", x], ["inner_tc", gen_tc(rng, bs, depth + 1, cfg, cls="TCA")]]
+        optional(ents)
+    inner = {"k": "td", "bs": list(bs), "ents": ents}
+    if cls in ("TCA", "TCC") and bs and bs[0] > 0 and rng.random() < 0.15:
+        # a stack of tensorclass instances is a tensorclass instance over a lazy stack (what lazy_stack([tc, tc]) builds)
+        member = {"k": "td", "bs": list(bs[1:]), "ents": [[k, restrict(e, 1)] for k, e in ents]}
+        inner = {"k": "lazy", "sd": 0, "members": [member] + [reseed(rng, member) for _ in range(bs[0] - 1)]}
+    d = {"k": "tc", "cls": cls, "inner": inner}
+    if nt:
+        d["nt"] = nt
+    return d
 
 
 BATCHES = [[], [], [1], [2], [2], [3], [2, 1], [2, 3], [1, 2], [3, 2]]
@@ -880,7 +1006,13 @@ QUIRKS = ["zero-size", "reserved-key", "tuple-payload", "set-payload", "nts-list
 def td_nodes(d):
     """plain tensordict nodes that accept a new entry (the field set of a tensorclass is fixed)"""
     out, inner = [], []
-    walk_desc(d, lambda x, p: inner.append(id(x["inner"])) if x["k"] == "tc" else None)
+
+    def fixed(x):
+        # the tensordict of a tensorclass instance; over a lazy stack: every member
+        inner.append(id(x))
+        for m in x.get("members", []):
+            fixed(m)
+    walk_desc(d, lambda x, p: fixed(x["inner"]) if x["k"] == "tc" else None)
     walk_desc(d, lambda x, p: out.append(x) if x["k"] == "td" and id(x) not in inner else None)
     return out
 
@@ -934,14 +1066,43 @@ def add_elsewhere(rng, d):
     return True
 
 
+def gen_fault_structure(rng):
+    """small structures for the fault-injection stream (every site of each is visited): most hold a tensorclass entry
+    (decorator / subclass form, nested, over a lazy stack, with Optional and non-tensor fields) next to plain leaves,
+    nested tensordicts, lazy stacks, NonTensorData / NonTensorStack"""
+    cfg = {"max_depth": 2, "kinds": ["tc", "lazy", "ntd", "nts", "td"]}
+    d = None
+    for _ in range(40):
+        r = rng.random()
+        bs = rng.choice(BATCHES)
+        if r < 0.2:
+            d = gen_tc(rng, bs, 0, cfg)
+        elif r < 0.3 and bs:
+            d = gen_lazy(rng, bs, 0, cfg)
+        else:
+            d = gen_td(rng, bs, 0, cfg)
+            if r < 0.75 and "tc" not in features(d)["kinds"]:
+                free = [k for k in KEYS if k not in {kk for kk, _ in d["ents"]}]
+                d["ents"].insert(rng.randrange(len(d["ents"]) + 1), [rng.choice(free), gen_tc(rng, bs, 1, cfg)])
+        ft = features(d)
+        if 1 <= ft["leaves"] <= 6 and n_tasks(d) <= 14:
+            return d
+    return d
+
+
 # ====================================================================================================== the save stream
-def full_obs(desc, api, nt, order, real_pool, copy_existing, keep=False, pre=None, also=()):
-    """one call on a fresh directory (or on [pre], a directory that already has content); everything the checks look at"""
+def full_obs(desc, api, nt, order, real_pool, copy_existing, keep=False, pre=None, also=(), existsok=True, return_early=False,
+             prepare=None):
+    """one call on a fresh directory (or on [pre], a directory that already has content); everything the checks look at.
+    prepare(root): puts the obstacles of a fault-injection case into the fresh directory before the call"""
     root = pre or tempfile.mkdtemp(prefix="c10-")
     side = tempfile.mkdtemp(prefix="c10s-")
     res = None
     try:
-        o, td, res = save_call(desc, api, root, num_threads=nt, order=order, real_pool=real_pool, copy_existing=copy_existing, side=side)
+        if prepare is not None:
+            prepare(root)
+        o, td, res = save_call(desc, api, root, num_threads=nt, order=order, real_pool=real_pool, copy_existing=copy_existing, side=side,
+                               existsok=existsok, return_early=return_early)
         if "build_error" in o:
             return o, None, None
         try:
@@ -1071,6 +1232,11 @@ def classify(case, label, detail):
                 return "stale-pickle"
     if label == "save-raises" and ft["set_payload"] and d.get("outcome") == "raise:TypeError":
         return "set-payload"
+    if d.get("return_early") and (d.get("worker_errors") or d.get("real_pool_and_sequential_raises")) and (
+            (label == "threads-differ-from-sequential" and d.get("differs") == "outcome" and d.get("swallowed"))
+            or label in ("returns-normally-with-a-file-missing", "worker-exception-unreported")):
+        # TensorDictFuture.result() waits for the futures it was given and never looks at their outcome
+        return "worker-exception-swallowed-by-TensorDictFuture.result"
     if label == "threads-differ-from-sequential" and d.get("differs") == "outcome" and d.get("swallowed"):
         return "worker-exception-swallowed"
     return "none"
@@ -1159,6 +1325,180 @@ def _save_case(R, case, model_q):
             fail(R, "save:", "worker-exception-unreported", c, {"worker_errors": o["worker_errors"]})
         if not real and nt > 1 and o["outcome"] == "ok" and o.get("pools") and not o.get("worker_errors"):
             model_q.append(("perm", c, o))
+
+
+# ====================================================================================================== fault injection
+def fault_sites(desc):
+    """where a writer task can be made to fail: ('leaf', dir path, key, descriptor) for every tensor with elements,
+    ('meta', dir path, kind) for every node that writes a meta.json — both in submission order of the tasks"""
+    leaves, metas = [], []
+
+    def walk(x, path):
+        k = x["k"]
+        if k == "td":
+            for key, e in x["ents"]:
+                if e["k"] == "leaf":
+                    if numel(e["shape"]) > 0:
+                        leaves.append((tuple(path), key, e))
+                else:
+                    walk(e, path + [key])
+            metas.append((tuple(path), k))
+        elif k == "lazy":
+            metas.append((tuple(path), k))
+            for i, m in enumerate(x["members"]):
+                walk(m, path + [str(i)])
+        elif k == "tc":
+            metas.append((tuple(path), k))
+            walk(x["inner"], path + ["_tensordict"])
+        elif k in ("ntd", "nts"):
+            metas.append((tuple(path), k))
+    walk(desc, [])
+    return leaves, metas
+
+
+def apply_faults(desc, faults):
+    """(descriptor with the 'elsewhere' faults applied, prepare(root) creating the obstacles, copy_existing, existsok)"""
+    d = json.loads(json.dumps(desc))
+    leaves, metas = fault_sites(d)
+    mk_files, mk_dirs = [], []
+    existsok = True
+    for f in faults:
+        if f["kind"] == "elsewhere":
+            leaves[f["site"]][2]["layout"] = "mm-elsewhere"
+        elif f["kind"] == "exists":
+            path, key, e = leaves[f["site"]]
+            mk_files.append((os.path.join(*path, key + ".memmap") if path else key + ".memmap", numel(e["shape"]) * ITEMSIZE[e["dtype"]]))
+            existsok = False
+        elif f["kind"] == "metadir":
+            path, _ = metas[f["site"]]
+            mk_dirs.append(os.path.join(*path, "meta.json") if path else "meta.json")
+        else:
+            raise ValueError(f)
+
+    def prepare(root):
+        for rel, size in mk_files:
+            fp = os.path.join(root, rel)
+            os.makedirs(os.path.dirname(fp), exist_ok=True)
+            with open(fp, "wb") as fh:
+                fh.write(b"\0" * size)
+        for rel in mk_dirs:
+            os.makedirs(os.path.join(root, rel), exist_ok=True)
+    return d, prepare, existsok
+
+
+def fault_target(desc, f):
+    """(directory path, file) the fault is about — what the model is told"""
+    leaves, metas = fault_sites(desc)
+    if f["kind"] == "metadir":
+        return list(metas[f["site"]][0]), "meta"
+    path, key, _ = leaves[f["site"]]
+    return list(path), key
+
+
+def missing_files(d, path=""):
+    """entries a meta.json of a TensorDict directory describes as tensors with elements whose file is not there"""
+    out = []
+    m = d["files"].get("meta.json", {}).get("meta")
+    if isinstance(m, dict) and m.get("_type") == "TensorDict":
+        for k, r in m.items():
+            if isinstance(r, dict) and "dtype" in r and "shape" in r and numel(r["shape"]) > 0 and k + ".memmap" not in d["files"]:
+                out.append(path + "/" + k + ".memmap")
+    for n, sdir in d["subs"].items():
+        out += missing_files(sdir, path + "/" + n)
+    return out
+
+
+def fault_case(R, case, model_q):
+    return guarded(R, "fault:", case, _fault_case, model_q)
+
+
+def _fault_case(R, case, model_q):
+    """the property's 'single-threaded form = threaded form' under a provoked writer failure: both raise (same exception
+    class) or both succeed with equal directory, result and loaded tensordict; never 'returns normally with a file missing'"""
+    api, faults = case["api"], case["faults"]
+    desc, prepare, existsok = apply_faults(case["desc"], faults)
+    ce = False
+    kw = {"existsok": existsok, "prepare": prepare}
+    ref, _, _ = full_obs(desc, api, 0, None, False, ce, **kw)
+    if "build_error" in ref:
+        raise RuntimeError("machinery: cannot build " + json.dumps(desc)[:300] + " :: " + ref["build_error"])
+    R.traces += 1
+    R.count("fault:sequential:" + ("raises" if ref["outcome"] != "ok" else "ok"))
+    if ref["outcome"] == "ok" and any(f["kind"] == "exists" for f in faults):
+        # documented contract of existsok=False: "an exception will be raised if a tensor already exists in the same path"
+        fail(R, "fault:", "existing-file-not-refused", dict(case, num_threads=0, order=None, existsok=existsok), {"outcome": ref["outcome"]})
+    c0 = dict(case, desc=desc, base=case["desc"], num_threads=0, order=None, existsok=existsok, copy_existing=ce)
+    c0.pop("runs", None)
+    if ref["outcome"] == "ok":
+        # the obstacle did not stop this entry point (memmap_like replaces every tensor first): then the save is a save
+        check_roundtrip(R, c0, ref, "fault:")
+        if "files" in ref.get("dir", {}) and not any(f["kind"] == "metadir" for f in faults):
+            model_q.append(("save", c0, ref))
+    model_q.append(("fault", c0, ref))
+    for nt, order, real, early in case["runs"]:
+        o, _, _ = full_obs(desc, api, nt, order, real, ce, return_early=early, **kw)
+        R.traces += 1
+        c = dict(c0, num_threads=nt, order=order, real_pool=real, return_early=early)
+        R.count("fault:threads:" + str(nt) + (":real" if real else "") + (":return_early" if early else ""))
+        if o.get("unrun"):
+            fail(R, "fault:", "task-never-run", c, {"unrun": o["unrun"]})
+        df = order_diff(ref, o)
+        if df is not None:
+            detail = {"differs": df[0], "sequential": df[1] if len(df) > 1 else None, "this_run": list(df[2:]) if len(df) > 2 else None,
+                      "worker_errors": o.get("worker_errors"), "tasks": o.get("tasks"), "collected": o.get("collected"),
+                      "swallowed": bool(o["outcome"] == "ok" and ref["outcome"] != "ok" and (o.get("worker_errors") or real)),
+                      "return_early": bool(early), "real_pool_and_sequential_raises": bool(real and ref["outcome"] != "ok")}
+            fail(R, "fault:", "threads-differ-from-sequential", c, detail)
+        elif o.get("worker_errors") and o["outcome"] == "ok":
+            fail(R, "fault:", "worker-exception-unreported", c, {"worker_errors": o["worker_errors"], "return_early": bool(early)})
+        if o["outcome"] == "ok" and "files" in o.get("dir", {}):
+            mf = missing_files(o["dir"])
+            if mf:
+                fail(R, "fault:", "returns-normally-with-a-file-missing", c,
+                     {"missing": mf, "worker_errors": o.get("worker_errors"), "sequential": ref["outcome"], "return_early": bool(early),
+                      "real_pool_and_sequential_raises": bool(real and ref["outcome"] != "ok")})
+        if not real and nt > 1 and o.get("pools"):
+            model_q.append(("fault-pool", c, o))
+
+
+def plan_fault_runs(rng, desc, quick):
+    """(num_threads, order, real pool, return_early): no pool (1), the permuting pool under identity / reverse / random
+    completion orders with 2 and 4 threads, with and without return_early, and the real pool"""
+    n = n_tasks(desc)
+    ident, rev = list(range(n)), list(range(n - 1, -1, -1))
+    rnd = list(range(n))
+    rng.shuffle(rnd)
+    runs = [(1, None, False, False), (2, ident, False, False), (4, rev, False, False), (2, rnd, False, True), (4, ident, False, True)]
+    if not quick:
+        rnd2 = list(range(n))
+        rng.shuffle(rnd2)
+        runs += [(4, rnd2, False, False), (2, rev, False, True), (2, None, True, False), (4, None, True, True)]
+    elif rng.random() < 0.34:
+        runs.append((2, None, True, rng.random() < 0.5))
+    return runs
+
+
+def gen_fault_cases(rng, desc, quick, counter):
+    """every leaf position and every metadata file of the structure in turn, one obstacle each; entry points and obstacle
+    kinds rotate so that each (entry point, kind) pair is met evenly; a few cases carry two obstacles of different
+    exception classes (which one surfaces must not depend on the threads either)"""
+    leaves, metas = fault_sites(desc)
+    combos_leaf = [(a, k) for k in ("elsewhere", "exists") for a in ("memmap", "memmap_", "save", "memmap_like") if not (k == "exists" and a == "save")]
+    combos_meta = [(a, "metadir") for a in ("memmap", "memmap_", "save", "memmap_like")]
+    out = []
+    for kind_sites, combos in ((leaves, combos_leaf), (metas, combos_meta)):
+        for i in range(len(kind_sites)):
+            chosen = combos if not quick else [combos[(counter[0] + j) % len(combos)] for j in range(2)]
+            counter[0] += 3
+            for api, kind in chosen:
+                out.append({"stream": "fault", "desc": desc, "api": api, "faults": [{"kind": kind, "site": i}]})
+    if leaves and metas and rng.random() < (0.5 if quick else 1.0):
+        api = rng.choice(["memmap", "memmap_", "save"])
+        out.append({"stream": "fault", "desc": desc, "api": api,
+                    "faults": [{"kind": "elsewhere", "site": rng.randrange(len(leaves))}, {"kind": "metadir", "site": rng.randrange(len(metas))}]})
+    for c in out:
+        c["runs"] = plan_fault_runs(rng, desc, quick)
+    return out
 
 
 # ====================================================================================================== live view
@@ -1538,7 +1878,9 @@ def _grow_case(R, case, model_q):
                 ob = observe(get())
             except EXC as e:  # noqa: BLE001
                 fail(R, "grow:", "raises:" + name, case, {"exc": repr(e)[:300]})
+                o.setdefault("views", {})[name] = {"raise": exc_class(e)}
                 continue
+            o.setdefault("views", {})[name] = ob
             df = obs_diff(exp, ob)
             if df:
                 fail(R, "grow:", "differs:" + name, case, {"path": df[0], "what": df[1], "expected": df[2], "got": df[3]})
@@ -1605,7 +1947,7 @@ def td_sx(d):
     if k == "lazy":
         return [Sym("lazy"), d["sd"], [td_sx(m) for m in d["members"]]]
     if k == "tc":
-        return [Sym("tc"), d["cls"], td_sx(d["inner"])]
+        return [Sym("tc"), d["cls"], [[f, payload_sx(pl)] for f, pl in d.get("nt", [])], td_sx(d["inner"])]
     if k == "ntd":
         return [Sym("ntd"), list(d["bs"]), payload_sx(d["data"])]
     if k == "nts":
@@ -1634,7 +1976,8 @@ def td_obs_from_sx(s):
         b.insert(s[1], len(ms))
         return {"k": "lazy", "sd": s[1], "bs": b, "members": ms}
     if k == "tc":
-        return {"k": "tc", "cls": str(s[1]), "inner": td_obs_from_sx(s[2])}
+        return {"k": "tc", "cls": str(s[1]), "inner": td_obs_from_sx(s[3]),
+                "nt": {str(f): payload_from_sx(v) for f, v in sorted(s[2], key=lambda fv: str(fv[0]))}}
     if k == "ntd":
         return {"k": "ntd", "bs": list(s[1]), "data": payload_from_sx(s[2])}
     if k == "nts":
@@ -1789,6 +2132,17 @@ def model_lines(model_q):
             lines.append(sx([Sym("link"), opts_sx(case), case["api"] == "memmap_", t]))
             dsx = dir_sx(o["dir"], [case["desc"]]) if o.get("outcome") == "ok" and "files" in o.get("dir", {}) and case["api"] != "memmap_like" else None
             lines.append(sx([Sym("decode"), dsx]) if dsx is not None else sx([Sym("valid"), 0]))
+        elif kind in ("fault", "fault-pool"):
+            index.append((kind, case, o, len(lines)))
+            fl = []
+            for f in case["faults"]:
+                if f["kind"] == "elsewhere":
+                    continue            # in the structure itself (lsrc = elsewhere)
+                path, name = fault_target(case["base"], f)
+                fl.append([path, Sym("meta") if f["kind"] == "metadir" else [Sym("leaf"), name],
+                           Sym("IsADirectoryError" if f["kind"] == "metadir" else "RuntimeError")])
+            lines.append(sx([Sym("fault-call"), opts_sx(case), case["api"] == "memmap_", bool(case.get("return_early")), t, fl,
+                             list(case.get("order") or [])]))
         elif kind == "perm":
             index.append((kind, case, o, len(lines)))
             lines.append(sx([Sym("tasks"), opts_sx(case), case["api"] == "memmap_", t]))
@@ -1802,6 +2156,7 @@ def model_lines(model_q):
             index.append((kind, case, o, len(lines)))
             lines.append(sx([Sym("grow"), t, [grow_op_sx(op) for op in case["ops"]]]))
             lines.append(sx([Sym("grow-outcomes"), t, [grow_op_sx(op) for op in case["ops"]]]))
+            lines.append(sx([Sym("refresh"), t, [grow_op_sx(op) for op in case["ops"]]]))
             dsx = dir_sx(o["dir"], [case["after"]]) if "files" in o.get("dir", {}) else None
             lines.append(sx([Sym("decode"), dsx]) if dsx is not None else sx([Sym("valid"), 0]))
     return lines, index
@@ -1858,6 +2213,43 @@ def compare_with_model(R, model_q):
                 R.count("link-instances-checked")
             if o["outcome"] == "ok" and not like and isinstance(out[i + 3], list) and out[i + 3] and out[i + 3][0] in ("ok", "raised"):
                 loaded_obs_cmp(R, "load", case, out[i + 3], o["loaded"])
+        elif kind in ("fault", "fault-pool"):
+            r = out[i]
+            if not (isinstance(r, list) and len(r) == 4):
+                R.mismatch("fault:model-answer", case, "-", r)
+                continue
+            outcomes, flags, seq, pool = r
+            if kind == "fault":
+                if res_of(seq)[0] != o["outcome"]:
+                    R.mismatch("fault:sequential-outcome", case, o["outcome"], res_of(seq)[0])
+                continue
+            R.count("collect:calls-compared")
+            # (1) which writer tasks fail, and how
+            real_err = {int(i): str(n) for i, n in (o.get("worker_errors") or [])}
+            mod_err = {i: str(x) for i, x in enumerate(outcomes) if str(x) != "ok"}
+            if len(outcomes) != len(o.get("spawned") or []) or real_err != mod_err:
+                R.mismatch("fault:task-outcomes", case, {"spawned": len(o.get("spawned") or []), "failed": real_err},
+                           {"spawned": len(outcomes), "failed": mod_err})
+            # (2) collected = spawned: every future the executor handed out vs the futures the entry point inspects
+            #     (or gives to the TensorDictFuture) — the correspondence obligation of C10_walk_collects_every_future
+            mod_collected = [i for i, b in enumerate(flags) if b == "t"]
+            if list(o.get("collected") or []) != mod_collected:
+                R.mismatch("collect:spawned-vs-collected", case,
+                           {"spawned": o.get("spawned"), "collected": o.get("collected"), "waited": o.get("waited"), "tasks": o.get("tasks")},
+                           {"collected": mod_collected})
+            # `for future in futures: future.result()`: in list order, up to the first that failed; TensorDictFuture: none
+            mod_inspected = []
+            if not case.get("return_early"):
+                for i in mod_collected:
+                    mod_inspected.append(i)
+                    if i in mod_err:
+                        break
+            if list(o.get("inspected") or []) != mod_inspected:
+                R.mismatch("collect:inspected", case, {"inspected": o.get("inspected"), "collected": o.get("collected")}, {"inspected": mod_inspected})
+            R.count("collect:futures-compared", len(flags))
+            # (3) what the call returns
+            if res_of(pool)[0] != o["outcome"]:
+                R.mismatch("fault:pool-outcome", case, o["outcome"], res_of(pool)[0])
         elif kind == "perm":
             tl = out[i]
             real_tasks = o.get("tasks") or []
@@ -1867,6 +2259,12 @@ def compare_with_model(R, model_q):
                     R.mismatch("tasks:list", case, real_tasks, mt)
             else:
                 R.count("tasks:unrecognised")
+            if o.get("collected") is not None and list(o["collected"]) != list(range(len(tl))):
+                # the model's walk collects the future of every task it submits (C10_walk_collects_every_future)
+                R.mismatch("collect:spawned-vs-collected", case, {"spawned": o.get("spawned"), "collected": o.get("collected"), "tasks": real_tasks},
+                           {"collected": list(range(len(tl)))})
+            R.count("collect:calls-compared")
+            R.count("collect:futures-compared", len(tl))
             st = out[i + 1][0]
             mdest, mfs, mdirs = st
             files, dirs = flat_real_dir(o["dir"], like)
@@ -1919,8 +2317,17 @@ def compare_with_model(R, model_q):
             mo = [res_of(x)[0] for x in out[i + 1]] if isinstance(out[i + 1], list) else out[i + 1]
             if mo != o["outcomes"]:
                 R.mismatch("grow:outcomes", case, o["outcomes"], mo)
-            if isinstance(out[i + 2], list) and out[i + 2] and out[i + 2][0] in ("ok", "raised"):
-                loaded_obs_cmp(R, "grow:load", case, out[i + 2], o["loaded"])
+            rf = out[i + 2]
+            if isinstance(rf, list) and len(rf) == 2:
+                # memmap_refresh_ of a second mapping / load_memmap_ into an empty tensordict vs Model.C10_Refresh.load_into
+                for name, mr in (("refreshed-mapping", rf[0]), ("load_memmap_", rf[1])):
+                    if name in (o.get("views") or {}):
+                        loaded_obs_cmp(R, "refresh:" + name, case, mr, o["views"][name])
+                        R.count("refresh:" + name + ":compared")
+            else:
+                R.mismatch("refresh:model-answer", case, "-", rf)
+            if isinstance(out[i + 3], list) and out[i + 3] and out[i + 3][0] in ("ok", "raised"):
+                loaded_obs_cmp(R, "grow:load", case, out[i + 3], o["loaded"])
 
 
 def strip_unknown(d):
@@ -1976,6 +2383,14 @@ def _save_worker(cases):
     r = _Recorder()
     for c in cases:
         save_case(r, c, r.rec["model_q"])
+    return r.rec
+
+
+def _fault_worker(cases):
+    torch.set_num_threads(1)
+    r = _Recorder()
+    for c in cases:
+        fault_case(r, c, r.rec["model_q"])
     return r.rec
 
 
@@ -2035,13 +2450,16 @@ def check_dtype_table(R):
 
 def main(R):
     torch.set_num_threads(1)
-    R.rule = ("structures: random trees (depth <= 3) of TensorDict nodes, lazy stacks (nested, heterogeneous members), two tensorclasses, "
+    R.rule = ("structures: random trees (depth <= 3) of TensorDict nodes, lazy stacks (nested, heterogeneous members), four tensorclasses "
+              "(decorator and subclass form, nested, over a lazy stack, Optional fields left None, non-tensor fields), "
               "NonTensorData (str/int/bool/None/list/dict/opaque-object payloads), NonTensorStack, empty nodes; leaves of all 16 dtypes of "
               "_STRDTYPE2DTYPE, rank 0..5, contiguous/transposed/strided/expanded/requires-grad/already-memory-mapped (no file, file elsewhere); "
               "~30% carry one formerly-defective pattern (0-size leaf, reserved key [now refused], tuple/set payload, list-valued stack items, "
               "wide NonTensorData, float8). Each is saved with memmap/memmap_/memmap_like/save sequentially, with num_threads=1, under every completion order "
               "of the writer tasks for <= 5 tasks (else identity/reverse/rotations/random) via the permuting executor, and with the real pool "
-              "(2,4,8 threads). distinct = (structure, api, copy_existing); non-trivial = at least 2 nodes+leaves.")
+              "(2,4,8 threads). Fault stream: at every leaf position and every metadata file of small structures one obstacle "
+              "(elsewhere+copy_existing=False / existing file+existsok=False / meta.json a directory) x 4 entry points x num_threads 0,1,2,4 x "
+              "orders x return_early x real pool. distinct = (structure, api, copy_existing | obstacles); non-trivial = at least 2 nodes+leaves.")
     R.assumptions = ["mmap coherence between mappings/processes and real thread preemption are the OS's: exercised (same process, fork, spawn, "
                      "real ThreadPoolExecutor), not modelled",
                      "byte-level reinterpretation of a file read with another dtype/length is not modelled (model answers 'unmodelled')",
@@ -2078,6 +2496,8 @@ def main(R):
             grow_case(R, c, model_q)
         elif kind == "live":
             live_case(R, c)
+        elif kind == "fault":
+            fault_case(R, dict(c, runs=plan_fault_runs(rng, c["desc"], quick)), model_q)
         R.case(("corpus", json.dumps(c, sort_keys=True)), nontrivial=True)
     # ---- (1) save stream
     n_struct = 100 if quick else 1500
@@ -2129,6 +2549,40 @@ def main(R):
         for i, (case, n, exhaustive) in enumerate(planned):
             register(i, case, n, exhaustive)
     lap("save")
+    # ---- (1b) fault injection: a writer task fails at each position in turn
+    t_stream = time.time()
+    counter = [rng.randrange(12)]
+    n_fault = 0
+    fault_planned = []
+    for i in range(40 if quick else 120):
+        if quick and i >= 6 and time.time() - t_stream > 25:
+            R.extra["fault_stream_cut_at"] = i
+            break
+        desc = gen_fault_structure(rng)
+        hist_structure(R, desc, "fault:")
+        for case in gen_fault_cases(rng, desc, quick, counter):
+            for f in case["faults"]:
+                R.count("fault:" + f["kind"] + ":" + case["api"])
+            R.count("fault:obstacles:" + str(len(case["faults"])))
+            R.case(("fault", json.dumps(desc, sort_keys=True), case["api"], json.dumps(case["faults"])), nontrivial=True,
+                   sample={k: v for k, v in case.items() if k != "runs"} if n_fault == 5 else None)
+            n_fault += 1
+            if quick:
+                fault_case(R, case, model_q)
+            else:
+                fault_planned.append(case)
+    if fault_planned:
+        import multiprocessing as mp
+        with mp.get_context("fork").Pool(14) as pool:
+            for rec in pool.imap_unordered(_fault_worker, [fault_planned[j::56] for j in range(56)]):
+                R.oracle_failures.extend(rec["fails"])
+                R.mismatches.extend(rec["mm"])
+                R.traces += rec["traces"]
+                for k, v in rec["hist"].items():
+                    R.count(k, v)
+                model_q.extend(rec["model_q"])
+    R.extra["fault_cases"] = n_fault
+    lap("fault")
     # ---- (2) resave over a directory with content
     t_stream = time.time()
     for i in range(50 if quick else 600):
@@ -2242,6 +2696,22 @@ def replay(body):
             print(f"implementation, num_threads={r[0]} order={r[1]} real_pool={r[2]}:",
                   json.dumps({k: o.get(k) for k in ("outcome", "worker_errors", "tasks", "ran", "loaded")}, default=str)[:2500])
         save_case(R, dict(case, runs=runs), mq)
+    elif stream == "fault":
+        base = case.get("base", case["desc"])
+        nt = case.get("num_threads", 0)
+        runs = [(nt, case.get("order"), bool(case.get("real_pool")), bool(case.get("return_early")))] if nt else []
+        print("obstacles:", json.dumps(case["faults"]), "->", [fault_target(base, f) for f in case["faults"]])
+        fd, prepare, existsok = apply_faults(base, case["faults"])
+        ref, _, _ = full_obs(fd, case["api"], 0, None, False, False, existsok=existsok, prepare=prepare)
+        print("implementation, sequential:", json.dumps({k: ref.get(k) for k in ("outcome", "exc", "loaded")}, default=str)[:1500])
+        for r in runs:
+            o, _, _ = full_obs(fd, case["api"], r[0], r[1], r[2], False, existsok=existsok, prepare=prepare, return_early=r[3])
+            print(f"implementation, num_threads={r[0]} order={r[1]} real_pool={r[2]} return_early={r[3]}:",
+                  json.dumps({k: o.get(k) for k in ("outcome", "exc", "worker_errors", "tasks", "spawned", "collected", "inspected", "loaded")},
+                             default=str)[:3000])
+            if o.get("outcome") == "ok" and "files" in o.get("dir", {}):
+                print("    files described by a meta.json but missing:", missing_files(o["dir"]))
+        fault_case(R, dict(case, desc=base, runs=runs), mq)
     elif stream == "resave":
         resave_case(R, case, mq)
     elif stream == "grow":
